@@ -245,7 +245,7 @@ func TestReleaseArrival(t *testing.T) {
 							o = limiter.OrderingLIFO
 						}
 						s.lim = limiter.NewQueueBlockingLimiterFromConfig(gl, limiter.QueueLimiterConfig{Ordering: o, MaxBacklogSize: 4, MaxBacklogTimeout: -1, BacklogEvictDoneCtx: true, MetricRegistry: reg})
-						cfg.Kind, cfg.QMax, cfg.EvictCtx, cfg.Ordering, cfg.Expect = "queue", 4, true, kind[6:], kind[6:]
+						cfg.Kind, cfg.QMax, cfg.EvictCtx, cfg.Ordering, cfg.Expect = "queue", 4, true, kind[6:], "any" // the served caller is pushed and handed the token within one step: no order to judge
 						s.extra = func() J {
 							q, _ := reg.GaugeByID(core.MetricQueueSize)
 							return J{"busy": busy(), "gauge": int(dl.VerifInFlight()), "q": q, "t": 0}
